@@ -1212,6 +1212,67 @@ MUTANTS = [
       (PP, """                    pid, sts = os.waitpid(self.pid, flag)
                 except OSError:""", """                    pid, sts = os.waitpid(self.pid, flag)
                 except InterruptedError:""")),
+    # ------------------------------------- R-MAP-SHAPE
+    M("map-chain-reversed", ["C03"], ["R-MAP-SHAPE"],
+      (PE, """        element.reverse()
+        while element:""", """        while element:""")),
+    M("map-runner-filters-falsy-args", ["C03"], ["R-MAP-SHAPE"],
+      (PE, """    return [fn(*args) for args in chunk]""", """    return [fn(*args) for args in chunk if args]""")),
+    M("map-chunker-rezips-per-chunk", ["C03"], ["R-MAP-SHAPE"],
+      (PE, """    it = zip(*iterables)
+    while True:
+        chunk = tuple(itertools.islice(it, chunksize))""", """    while True:
+        it = zip(*iterables)
+        chunk = tuple(itertools.islice(it, chunksize))""")),
+    M("map-chunker-stops-on-nonempty", ["C03"], ["R-MAP-SHAPE"],
+      (PE, """        if not chunk:
+            return
+        yield chunk""", """        if chunk:
+            return
+        yield chunk""")),
+    M("map-chunk-size-off-by-one", ["C03"], ["R-MAP-SHAPE"],
+      (PE, """        chunk = tuple(itertools.islice(it, chunksize))""", """        chunk = tuple(itertools.islice(it, chunksize - 1))""")),
+    M("map-returns-unchained-results", ["C03"], ["R-MAP-SHAPE"],
+      (PE, """        return _chain_from_iterable_of_lists(results)""", """        return results""")),
+    M("map-ignores-timeout", ["C03"], ["R-MAP-SHAPE"],
+      (PE, """            _get_chunks(chunksize, *iterables),
+            timeout=timeout,
+        )""", """            _get_chunks(chunksize, *iterables),
+        )""")),
+    # D12 (fixed in /repo): the forced-shutdown loop pops from a table the feeder's error hook pops from too
+    M("mgr-total-kill-path-popitem-unhandled-D12", ["C01", "C02", "C06"], ["R-MGR-TOTAL"],
+      (PE, """                try:
+                    _, work_item = self.pending_work_items.popitem()
+                except KeyError:
+                    # The feeder thread of the call queue can concurrently
+                    # remove (and fail) an item it could not serialize.
+                    break
+""", """                _, work_item = self.pending_work_items.popitem()
+""")),
+    M("mgr-total-terminate-broken-popitem-narrow", ["C01", "C02"], ["R-MGR-TOTAL"],
+      (PE, """                _, work_item = self.pending_work_items.popitem()
+            except KeyError:
+                break""", """                _, work_item = self.pending_work_items.popitem()
+            except IndexError:
+                break""")),
+    M("feeder-send-without-lock-on-posix", ["C01", "C04"], ["R-PAIR"],
+      (QU, """                        if wacquire is None:
+                            send_bytes(obj_)""", """                        if wacquire is not None:
+                            send_bytes(obj_)""")),
+    M("killtree-kill-handler-narrow", ["C06"], ["R-KILL-TREE"],
+      (UT, """        os.kill(pid, kill_signal)
+    except OSError as e:""", """        os.kill(pid, kill_signal)
+    except PermissionError as e:""")),
+    M("select-queue-reducers-reset", ["C15"], ["R-PICKLER-SELECT"],
+      (RD, """            if reducers is None:
+                reducers = {}""", """            if reducers is not None:
+                reducers = {}""")),
+    M("select-dispatch-table-source-inverted", ["C15"], ["R-PICKLER-SELECT"],
+      (RD, """            if hasattr(self, "dispatch_table"):""", """            if not hasattr(self, "dispatch_table"):""")),
+    M("singleton-default-size-inverted", ["C09"], ["R-SINGLETON"],
+      (RE, """                if reuse is True and executor is not None:
+                    max_workers = executor._max_workers""", """                if not (reuse is True and executor is not None):
+                    max_workers = executor._max_workers""")),
     # ------------------------------------------------------- R-SCN-* (polarity)
     M("scn-wakeup-inverted", ["C01", "C02", "C05"], ["R-SCN-WAKEPRIM"],
       (PE, """    def wakeup(self):
@@ -2217,6 +2278,15 @@ BENIGN = [
                     )
                 except BaseException:
                     pass""")),
+    B("benign-map-chain-yield-from", ["C03"],
+      (PE, """        element.reverse()
+        while element:
+            yield element.pop()""", """        yield from element""")),
+    B("benign-map-chain-pop-front", ["C03"],
+      (PE, """        element.reverse()
+        while element:
+            yield element.pop()""", """        while element:
+            yield element.pop(0)""")),
     B("benign-increment-spelled-out", None,
       (PE, """                    n_sentinels_sent += 1""", """                    n_sentinels_sent = n_sentinels_sent + 1"""),
       (PE, """            self._queue_count += 1""", """            self._queue_count = self._queue_count + 1"""),
